@@ -255,6 +255,15 @@ async fn run(_tier: Tier) {
         have_journal: ask != Ask::IxfrNoJournal,
         compat: sim::chance("compat_mode", 1, 4),
     };
+    // The library's own data providers (a `Zone` by itself, a `ZoneTree`
+    // holding it next to others) hand out the zone without a journal and in
+    // the normal packaging.
+    let lib_provider = if matches!(ask, Ask::Axfr | Ask::IxfrNoJournal) { sim::draw("provider.kind", 4) } else { 0 };
+    let mut provider = provider;
+    if lib_provider == 1 || lib_provider == 2 {
+        provider.compat = false;
+        sim::stat("probe.library_data_provider");
+    }
     let compat = provider.compat;
     if compat {
         sim::stat("probe.one_record_per_message_mode");
@@ -273,7 +282,6 @@ async fn run(_tier: Tier) {
     let udp = ask != Ask::Axfr && sim::chance("over_udp", 1, 6);
     let ctx = if udp { TransportSpecificContext::Udp(UdpTransportContext::new(Some(1232))) } else { TransportSpecificContext::NonUdp(NonUdpTransportContext::new(None)) };
     let request = Request::new("10.0.0.9:5300".parse().unwrap(), tokio::time::Instant::now(), req_msg, ctx, ());
-    let svc = XfrMiddlewareSvc::<Vec<u8>, NoSvc, (), Provider>::new(NoSvc, provider, 1);
     ev!("{:?} from version {} (serial {}) to {} (serial {}), udp={}", ask, i, sec_serial, j, serial_of(&contents[j]).unwrap(), udp);
     sim::stat(match ask {
         Ask::Axfr => "probe.axfr",
@@ -286,7 +294,24 @@ async fn run(_tier: Tier) {
         sim::stat("probe.multi_step_ixfr");
     }
     // Call the service and drain the response stream.
-    let mut stream: Pin<Box<dyn Stream<Item = ServiceResult<Vec<u8>>> + Send>> = Box::pin(svc.call(request).await);
+    let mut stream: Pin<Box<dyn Stream<Item = ServiceResult<Vec<u8>>> + Send>> = match lib_provider {
+        1 => Box::pin(XfrMiddlewareSvc::<Vec<u8>, NoSvc, (), Zone>::new(NoSvc, provider.zone.clone(), 1).call(request).await),
+        2 => {
+            // Neighbours in the tree: a zone above, one below, one elsewhere.
+            let mut tree = domain::zonetree::ZoneTree::new();
+            for apex in [".", "other.", "deep.down.example.", "ple."] {
+                if apex != APEX && sim::chance("provider.neighbour", 1, 2) {
+                    let _ = tree.insert_zone(domain::zonetree::ZoneBuilder::new(stored_name(apex), Class::IN).build());
+                }
+            }
+            if tree.insert_zone(provider.zone.clone()).is_err() {
+                sim::harness_error("zone tree refused the primary zone".to_string());
+                return;
+            }
+            Box::pin(XfrMiddlewareSvc::<Vec<u8>, NoSvc, (), Arc<domain::zonetree::ZoneTree>>::new(NoSvc, Arc::new(tree), 1).call(request).await)
+        }
+        _ => Box::pin(XfrMiddlewareSvc::<Vec<u8>, NoSvc, (), Provider>::new(NoSvc, provider, 1).call(request).await),
+    };
     let mut wires: Vec<Wire> = Vec::new();
     let mut ended = false;
     loop {
